@@ -246,6 +246,30 @@ fn untrusted_outcome<F: Fl>(bytes: Vec<u8>, fmt: Fmt, pad: usize) -> Value {
     r.unwrap_or_else(|| json!({"rt": "fail", "res": "VERIF-HANG: deserialisation did not return within 30 s"}))
 }
 
+/// the abstract document with every key written as the string `skey(k)`
+fn with_string_keys(v: &Value) -> Value {
+    let sk = |x: &Value| json!(skey(x.as_u64().unwrap_or(0) as K));
+    let nodes: Vec<Value> = v[0].as_array().unwrap().iter().map(|p| json!([sk(&p[0]), p[1]])).collect();
+    let edges: Vec<Value> = v[1].as_array().unwrap().iter().map(|p| json!([sk(&p[0]), sk(&p[1]), p[2]])).collect();
+    json!([nodes, edges])
+}
+
+/// the same for a container keyed by `String`
+fn untrusted_outcome_strkeys<F: Fl>(bytes: Vec<u8>, fmt: Fmt, pad: usize) -> Value {
+    let r = with_watchdog(
+        move || {
+            let r = guarded(|| F::g_strkeys_from(&bytes, fmt == Fmt::Json, pad));
+            match r {
+                Guarded::Ok(Ok(p)) => json!({"rt": "graph", "res": p}),
+                Guarded::Ok(Err(e)) => json!({"rt": "err", "res": e}),
+                o => json!({"rt": "fail", "res": o.failure()}),
+            }
+        },
+        30000,
+    );
+    r.unwrap_or_else(|| json!({"rt": "fail", "res": "VERIF-HANG: deserialisation did not return within 30 s"}))
+}
+
 pub fn replay_untrusted(opts: &HashMap<String, String>) -> Value {
     let fl = opts.get("flavour").expect("--flavour").clone();
     with_flavour!(fl.as_str(), replay_untrusted_fl(opts))
@@ -270,12 +294,13 @@ fn replay_untrusted_fl<F: Fl>(opts: &HashMap<String, String>) -> Value {
         let v = json!([d["nodes"], d["edges"]]);
         let exp = &case["res"];
         let nonempty = d["nodes"].as_array().map(|a| !a.is_empty()).unwrap_or(false);
-        for fmt in [Fmt::Json, Fmt::Cbor] {
+        let vs = with_string_keys(&v);
+        for (fmt, strkeys) in [(Fmt::Json, false), (Fmt::Cbor, false), (Fmt::Json, true), (Fmt::Cbor, true)] {
             n_exec += 1;
             if nonempty {
                 nontrivial += 1;
             }
-            let o = untrusted_outcome::<F>(render(&v, fmt), fmt, pad);
+            let o = if strkeys { untrusted_outcome_strkeys::<F>(render(&vs, fmt), fmt, pad) } else { untrusted_outcome::<F>(render(&v, fmt), fmt, pad) };
             let ok = if exp["ok"] == json!(true) {
                 *outcomes.entry("graph").or_insert(0) += 1;
                 o["rt"] == json!("graph")
@@ -296,7 +321,8 @@ fn replay_untrusted_fl<F: Fl>(opts: &HashMap<String, String>) -> Value {
             } else {
                 n_mismatch += 1;
                 if mismatches.len() < max_viol {
-                    mismatches.push(json!({"flavour": F::NAME, "fmt": fmt.name(), "doc": v, "rt": o["rt"], "res": o["res"], "expected": exp}));
+                    mismatches.push(json!({"flavour": F::NAME, "fmt": if strkeys { format!("{}+string-keys", fmt.name()) } else { fmt.name().to_string() },
+                        "doc": v, "rt": o["rt"], "res": o["res"], "expected": exp}));
                 }
             }
         }
